@@ -234,5 +234,6 @@ def run(chk):
     n = core_rules.defer_rules(chk, "C18", modules=(ALGOS,), only_hosts=("ReplayTransactions.__call__", "SimulateRFQTransactions.__call__"))
     chk.floor_count("C18.R4:deferred calls in replay algos", n, 2)
     first_row_of_possibly_empty(chk)
-    core_rules.transact_rules(chk, "C18")  # custom-price trades need bid/offer tracking for the reported prices to be the execution prices
+    core_rules.transact_rules(chk, "C18")
+    core_rules.security_setup_rules(chk, "C18")  # the bid/offer-paid history behind the reported execution prices  # custom-price trades need bid/offer tracking for the reported prices to be the execution prices
     tree_rules.full_name_members(chk, "C18")
